@@ -1,0 +1,58 @@
+//go:build verif
+
+// Contracts for package eventbus, checked by /verif/engine (ebuverify).
+// This file contains comments only: with the build tag off it does not exist,
+// with the tag on it adds no code.
+package eventbus
+
+// ---------------------------------------------------------------- events
+//@ event Append := call EventStore.Append
+//@ event persistErr := call PersistenceErrorHandler
+//@ event OnPersistStart := call Observability.OnPersistStart
+//@ event OnPersistComplete := call Observability.OnPersistComplete
+//@ event cancel := call context.CancelFunc
+
+// ------------------------------------------------------------- callbacks
+//@ callback PersistenceErrorHandler(fn, event, eventType, err)
+//@   effect reentrant
+//@   unlocked
+//@ callback context.CancelFunc(fn)
+//@   effect pure
+
+//@ method EventStore.Append(store, ctx, event)
+//@   effect opaque
+//@ method Observability.OnPersistStart(obs, ctx, eventType, position)
+//@   effect opaque
+//@   ensures result != nil && descends(result, ctx)
+//@ method Observability.OnPersistComplete(obs, ctx, duration, err)
+//@   effect opaque
+
+//@ immutable EventBus.store EventBus.persistenceErrorHandler EventBus.persistenceTimeout EventBus.observability
+
+//@ guarded EventBus.lastOffset by EventBus.storeMu
+//@ level EventBus.storeMu 1
+
+//@ func EventType
+//@   trusted
+//@   effect pure
+//@   ensures result == evName(dynType(event))
+
+//@ func (*EventBus).persistEvent
+//@   props C13
+//@   requires bus != nil && ctx != nil
+//@   ensures [C13.store.nil] bus.store == nil ==> cnt(Append) == 0 && cnt(persistErr) == 0
+//@   ensures [C13.marshal.fail] bus.store != nil && !jsonOK(event) ==>
+//@        cnt(Append) == 0 && cnt(persistErr) == ite(bus.persistenceErrorHandler != nil, 1, 0)
+//@   ensures [C13.marshal.fail.args] bus.store != nil && !jsonOK(event) && bus.persistenceErrorHandler != nil ==>
+//@        lastarg(persistErr, 1, Iface) == event && lastarg(persistErr, 2) == eventType && lastarg(persistErr, 3, Iface) != nil
+//@   ensures [C13.append.once] bus.store != nil && jsonOK(event) ==> cnt(Append) == 1
+//@   ensures [C13.append.fail] bus.store != nil && jsonOK(event) && saveErr != nil ==>
+//@        cnt(persistErr) == ite(bus.persistenceErrorHandler != nil, 1, 0)
+//@   ensures [C13.append.fail.args] bus.store != nil && jsonOK(event) && saveErr != nil && bus.persistenceErrorHandler != nil ==>
+//@        lastarg(persistErr, 1, Iface) == event && lastarg(persistErr, 2) == eventType && lastarg(persistErr, 3, Iface) != nil
+//@   ensures [C13.append.ok] bus.store != nil && jsonOK(event) && saveErr == nil ==> cnt(persistErr) == 0
+//@   ensures [C13.timeout] bus.store != nil && jsonOK(event) && bus.persistenceTimeout > 0 ==>
+//@        cnt(cancel) == 1 && descends(lastarg(Append, 1, Iface), ctx)
+//@   ensures [C13.ctx] bus.store != nil && jsonOK(event) ==> descends(lastarg(Append, 1, Iface), ctx)
+//@   at unlock:EventBus.storeMu assert [C13.offset.cs] (saveErr != nil ==> bus.lastOffset == acq(bus.lastOffset))
+//@        && (saveErr == nil ==> bus.lastOffset == offset)
